@@ -107,6 +107,22 @@ fn victim() {
                 mem[o..o + nd.len()].copy_from_slice(&nd);
             }
         }
+        if m["lookalike"].as_bool() == Some(true) {
+            // The backing file is deleted once mapped (the kernel then lists the mapping as `<path> (deleted)`)
+            // and ANOTHER file is created under exactly that name, holding other bytes: whatever the scanner
+            // opens under the listed name is not the file behind the mapping (its inode differs).
+            let path = victim_path(&case, m, std::process::id(), i);
+            std::fs::remove_file(&path).unwrap();
+            let foff = m["foff_pages"].as_u64().unwrap_or(0) as usize * page;
+            let mut content = vec![0x82u8; foff + len];
+            for o in m["decoys"].as_array().unwrap() {
+                let o = o.as_u64().unwrap() as usize;
+                if o + nd.len() <= len {
+                    content[foff + o..foff + o + nd.len()].copy_from_slice(&nd);
+                }
+            }
+            std::fs::write(format!("{path} (deleted)"), &content).unwrap();
+        }
         bases.push(ptr as usize);
     }
     println!("{}", json!({"bases": bases, "pid": std::process::id()}));
@@ -172,7 +188,9 @@ fn run(case: &Value) -> Value {
     drop(stdin);
     let _ = child.wait();
     for (i, _) in bases.iter().enumerate() {
-        let _ = std::fs::remove_file(victim_path(case, &case["mappings"][i], pid, i));
+        let p = victim_path(case, &case["mappings"][i], pid, i);
+        let _ = std::fs::remove_file(&p);
+        let _ = std::fs::remove_file(format!("{p} (deleted)"));
     }
     json!({"results": results, "needle_len": nd.len()})
 }
